@@ -114,6 +114,19 @@ impl Check for StoreCheck {
         let focus = self.id;
         let (rendered, stats) = {
             let mut it = Interp::new(cfg.clone(), scratch.path(), focus, &mut out, env);
+            // half of the cases (by a hash of the header slot, so that existing replays keep
+            // their meaning) also judge the on-disk state at the return of shutdown(); there the
+            // background index flushes are delayed through hook H6 so that "shutdown returned
+            // before the sealed indexes were written" is decided, not raced
+            let exit_snapshot = vlib::fnv1a(&t.slots().first().map(|s| s.iter().flat_map(|w| w.to_le_bytes()).collect::<Vec<u8>>()).unwrap_or_default()) % 2 == 0;
+            it.exit_snapshot = exit_snapshot;
+            if exit_snapshot {
+                sierradb::verif::set_pause_handler(Some(std::sync::Arc::new(|point: &str| {
+                    if point == "index-flush:start" {
+                        std::thread::sleep(std::time::Duration::from_millis(40));
+                    }
+                })));
+            }
             let before = vlib::peek_panics().len();
             let r = std::panic::catch_unwind(std::panic::AssertUnwindSafe(|| {
                 block_on(async {
@@ -130,6 +143,7 @@ impl Check for StoreCheck {
                 it.rendered.push(json!({"panicked": msg}));
                 it.fail(focus, &format!("panic/{shape}"), format!("a database call panicked on the calling task: {msg}"));
             }
+            sierradb::verif::set_pause_handler(None);
             (std::mem::take(&mut it.rendered), std::mem::take(&mut it.stats))
         };
         out.set_sample(json!({"config": cfg_json(&cfg), "ops": rendered}));
@@ -137,6 +151,7 @@ impl Check for StoreCheck {
         out.count("appends_rejected", stats.rejected);
         out.count("rollovers", stats.rollovers);
         out.count("reopens", stats.reopens);
+        out.count("states_at_shutdown_return_opened", stats.exit_snapshots);
         out.count("scans", stats.scans);
         out.count("reads", stats.reads);
         out.count("failed_multi_after_first_event", stats.failed_multi_after_first);
